@@ -288,6 +288,11 @@ impl RuleGen {
                     v.push(json!({"not_in_range": c}));
                 }
             }
+            // a constraint given twice is one constraint
+            if rng.chance(1, 6) {
+                let again = v[0].clone();
+                v.insert(rng.below(v.len() + 1), again);
+            }
             json!(v)
         } else {
             Value::Null
@@ -297,7 +302,8 @@ impl RuleGen {
                 0..=2 => (Value::Null, Value::Null),
                 3 => (json!([]), Value::Null),
                 4 => (if rng.coin() { json!(["GET"]) } else { json!(["GET", "PUT", "DELETE"]) }, Value::Null),
-                5 => (json!(["POST", "PUT"]), Value::Null),
+                // a method given twice is one method
+                5 => (if rng.chance(1, 3) { json!(["POST", "POST", "PUT"]) } else { json!(["POST", "PUT"]) }, Value::Null),
                 6 => (json!(["GET", "POST"]), json!(true)),
                 _ => (json!([rng.pick_str(METHODS)]), if rng.coin() { json!(true) } else { Value::Null }),
             }
